@@ -58,7 +58,14 @@ def evaluate(text, backend=None, cpu_timeout=None, fn=None):
     except BaseException as e:  # noqa
         if isinstance(e, (KeyboardInterrupt, SystemExit)):
             raise
-        return ("err", pl.err_class(e))
+        cls = pl.err_class(e)
+        if cls.startswith("INTERNAL:"):
+            # where the internal exception was raised distinguishes unrelated defects with the same exception type
+            import traceback
+            tb = traceback.extract_tb(e.__traceback__)
+            if tb:
+                cls += "@%s:%s" % (os.path.basename(tb[-1].filename), tb[-1].name)
+        return ("err", cls)
     finally:
         signal.setitimer(signal.ITIMER_VIRTUAL, 0)
         signal.alarm(0)
@@ -110,9 +117,17 @@ def impl_cli(text):
 
 
 def cli_err_class(out):
+    import re
+    if "Traceback" in out:
+        frames = re.findall(r'File "([^"]+)", line \d+, in (\S+)', out)
+        m = re.search(r"^(\w+)(?::.*)?$", [l for l in out.strip().split("\n") if l.strip() and not l.startswith(" ")
+                                          and "unexpected error" not in l][-1])
+        name = m.group(1) if m else "Exception"
+        if frames:
+            return "INTERNAL:%s@%s:%s" % (name, os.path.basename(frames[-1][0]), frames[-1][1])
+        return "INTERNAL:" + name
     for name, cls in (("InconsistentEvidenceError", "InconsistentEvidence"), ("NegativeCycle", "NegativeCycle"),
-                      ("AssertionError", "INTERNAL:AssertionError"), ("GroundingError", "GroundingError"),
-                      ("UnknownClause", "GroundingError")):
+                      ("GroundingError", "GroundingError"), ("UnknownClause", "GroundingError")):
         if name in out:
             return cls
     return "CLI-error:" + out.strip().split("\n")[-1][:80]
@@ -212,13 +227,42 @@ def feat_some_complementary_pair(prog):
 
 
 def feat_negated_positive_loop_inside_positive_loop(prog):
-    """a ground clause instance h :- ..., \\+b, ... where h lies on a positive cycle and b lies on a
-    positive cycle (the program may still be perfectly stratified)"""
+    """some ground atom h that lies on a positive cycle depends, through a path with at least one negative
+    edge, on an atom b that lies on a positive cycle (the program may still be perfectly stratified):
+    the engine meets the loop of b under a negation while the loop of h is still active"""
     gcs, pos, _ = ground_graph(prog)
+    succ = {}
     for _, hs, body in gcs:
-        for p, b in body:
-            if not p and _reaches(pos, b, b) and any(_reaches(pos, h, h) for h in hs):
-                return True
+        for h in hs:
+            for p, a in body:
+                succ.setdefault(h, set()).add((a, not p))
+    loops = set(h for h in pos if _reaches(pos, h, h))
+    for h in loops:
+        seen, todo = set(), [(h, False)]
+        while todo:
+            u, neg = todo.pop()
+            for w, isneg in succ.get(u, ()):
+                st = (w, neg or isneg)
+                if st in seen:
+                    continue
+                seen.add(st)
+                if st[1] and w in loops:
+                    return True
+                todo.append(st)
+    return False
+
+
+ASSERT_RESULTSET = "INTERNAL:AssertionError@eval_nodes.py:__setitem__"
+ASSERT_GETNODE = "INTERNAL:AssertionError@formula.py:get_node"
+
+
+def feat_evidence_on_positive_cycle(prog):
+    """some evidence atom depends positively on itself"""
+    _, pos, _ = ground_graph(prog)
+    for a, _v in prog.evidence():
+        g = (a[0], tuple(t[1] for t in a[1]))
+        if _reaches(pos, g, g):
+            return True
     return False
 
 
@@ -236,8 +280,11 @@ def classify(prog, impl, ref):
     k = kind_of(impl, ref)
     if k is None:
         return None
-    if k[0] == "impl-error" and k[1] == "INTERNAL:AssertionError" and ref[0] == "ok" and feat_recursive_with_false_clause(prog):
+    if k[0] == "impl-error" and k[1] == ASSERT_RESULTSET and feat_positive_cycle(prog):
+        # ResultSet.__setitem__ on a collapsed set; the FALSE conjunct may be syntactic (x, \\+x) or only semantic
         return "false-result-to-cycle-parent-assertion"
+    if k[0] == "impl-error" and k[1] == ASSERT_GETNODE and feat_evidence_on_positive_cycle(prog):
+        return "break-cycles-assertion-evidence-on-cyclic-atom"
     if k[0] == "wrong-probability" and feat_ad_body_on_own_head_contradiction(prog):
         return "ad-body-depends-on-own-head-with-contradiction"
     if k[0] == "wrong-probability" and feat_positive_cycle(prog) and feat_some_complementary_pair(prog):
@@ -245,10 +292,8 @@ def classify(prog, impl, ref):
         return "false-conjunct-on-positive-cycle-wrong-probability"
     if k[0] == "non-instance-reported" and feat_query_repeated_var(prog):
         return "query-repeated-variable-reports-non-instance"
-    if k[0] == "impl-error" and k[1] == "INTERNAL:AssertionError" and feat_positive_cycle(prog):
-        # same assertion (ResultSet.__setitem__ on a collapsed set), the FALSE conjunct is only semantic
-        return "false-result-to-cycle-parent-assertion"
-    if k[0] == "impl-error" and k[1] == "Timeout" and feat_positive_cycle(prog) and feat_some_complementary_pair(prog):
+    if k[0] == "impl-error" and k[1] == "Timeout" and feat_positive_cycle(prog) and prog.features()["negation"]:
+        # the conjunct that folds to FALSE may be syntactic (x, \\+x) or only semantic (f0, d1 with d1 :- \\+f0)
         return "no-termination-recursive-clause-with-false-conjunct"
     if k[0] == "impl-error" and k[1] == "NegativeCycle" and ref[0] != "err" or (
             k[0] == "impl-error" and k[1] == "NegativeCycle" and ref[1] == "InconsistentEvidence"):
@@ -296,10 +341,12 @@ def report_vs_oracle(ctx, prog, impl, ref, via, state, impl_fn, tol=1e-9, extra=
     n = state.get(("n", klass), 0)
     state[("n", klass)] = n + 1
     small, simpl, sref = prog, impl, ref
-    if (klass is None and n < 4) or n < 1:
-        fn = impl_quick if (impl[0] == "err" and impl[1] == "Timeout") else impl_fn
+    is_timeout = impl[0] == "err" and impl[1] == "Timeout"
+    if ((klass is None and n < 4) or n < 1) and not (is_timeout and len(prog.stmts) <= 8):
+        fn = impl_quick if is_timeout else impl_fn
         try:
-            small = shrink_disagreement(ctx, prog, fn, k, max_steps=ctx.n(120, 300))
+            # every candidate of a non-termination costs the whole CPU limit: keep that search short
+            small = shrink_disagreement(ctx, prog, fn, k, max_steps=25 if is_timeout else ctx.n(120, 300))
             simpl = fn(small.text())
             sref = one_oracle(ctx, small)
             if kind_of(simpl, sref, tol) != k:
